@@ -47,7 +47,7 @@ class TaggedDetGrammar(DetGrammar[U, V, W], Generic[T, U, V, W]):
         return self.grammar.programs()
 
     def __hash__(self) -> int:
-        return hash((self.start, self.grammar, str(self.tags)))
+        return hash((self.start, self.grammar))
 
     def __eq__(self, o: object) -> bool:
         return (
